@@ -239,6 +239,7 @@ def playR (c : RCase) (cfg : RCfg) (sorted : List NodeId) : List (List Json) →
     Except String (Array Json × Nat × String × Option Outcome × Option RSt)
   | _, .bad, _, acc, mx => return (acc, mx, "bad", none, none)
   | _, .done o r, _, acc, mx => return (acc, mx, "done", some o, some r)
+  | _, .crash r, _, acc, mx => return (acc, mx, "crash", none, some r)
   | [], .cont r, prev, acc, mx => return (acc.push (snapshotR c.wf2.g.nodes prev r.st), mx, "cont", none, some r)
   | mv :: rest, .cont r, prev, acc, mx => do
     let acc := acc.push (snapshotR c.wf2.g.nodes prev r.st)
